@@ -184,7 +184,8 @@ def gen_group(rng):
     nc = rng.choice([2, 3, 5, 9])
     cols = [{'dt': ['i', 64], 'vals': [['i', rng.randrange(2)] for _ in range(2)]} for _ in range(nc)]
     f = {'index': [['s', 'r0'], ['s', 'r1']], 'columns': C.rand_labels(rng, nc, 'str'), 'cols': cols, 'name': ['none']}
-    return {'op': 'group', 'kind': 'frame', 'f': f, 'axis': 1, 'by': ['cols', [rng.choice(f['index'])]]}, C.rand_layout(rng, f)
+    by = [rng.choice(f['index'])] if rng.random() < 0.75 else list(f['index'])
+    return {'op': 'group', 'kind': 'frame', 'f': f, 'axis': 1, 'by': ['cols', by], 'grow': rng.random() < 0.4}, C.rand_layout(rng, f)
 
 
 WINDOW_ROUTES = ['series_items', 'series_items', 'series_values', 'series_array', 'frame_axis0_items', 'frame_axis0_values', 'frame_axis0_array', 'frame_axis1_items', 'frame_axis1_values', 'frame_axis1_array', 'framego_axis0_values']
